@@ -182,3 +182,39 @@ Proof.
   destruct (pr_url p) as [|c u]; auto. repeat split; auto; [discriminate|]. destruct X; [discriminate|auto].
 Qed.
 Print Assumptions Requirement_sound.
+
+(* ------------------------------------------------------------------ where the marker of a Requirement comes from ---------- *)
+Definition from_p_marker (m0 : list elem) : Prop := exists fuel s s', p_marker fuel s = Some (m0, s').
+Lemma req_marker_origin s m s' : rq_req_marker s = Some (m, s') -> from_p_marker m.
+Proof.
+  unfold rq_req_marker. destruct (rq_is_hd 59 s); [|discriminate].
+  destruct (p_marker _ _) as [[m0 s0]|] eqn:E; [|discriminate]. intros [= <- _]. red. eauto.
+Qed.
+Lemma end_or_marker_origin u spc s u' spc' m s' : rq_end_or_marker u spc s = Some ((u', spc', Some m), s') -> from_p_marker m.
+Proof.
+  unfold rq_end_or_marker. destruct (rq_at_end s); [discriminate|].
+  destruct (rq_req_marker s) as [[m0 s0]|] eqn:E; [|discriminate]. intros [= _ _ <- _]. eapply req_marker_origin; eauto.
+Qed.
+Lemma parse_marker_origin src p m : rq_parse src = Some p -> pr_marker p = Some m -> from_p_marker m.
+Proof.
+  unfold rq_parse. cbv zeta. destruct (rq_ident _) as [[name s1]|]; [|discriminate].
+  destruct (rq_extras _) as [[extras s2]|]; [|discriminate].
+  destruct (rq_details (skip_ws s2)) as [[[[url spc] mo] s3]|] eqn:D; [|discriminate].
+  destruct (rq_at_end s3); [|discriminate]. intros [= <-]. cbn [pr_marker]. intros ->.
+  unfold rq_details in D. destruct (rq_is_hd 64 (skip_ws s2)).
+  - cbv zeta in D. destruct (MText.span rq_not_blank _) as [u r]. destruct u as [|c u]; [discriminate|].
+    destruct (rq_at_end _); [discriminate|]. destruct (MText.span is_wsb _) as [w r']. destruct w; [discriminate|].
+    eapply end_or_marker_origin; eauto.
+  - destruct (rq_specifier (skip_ws s2)) as [[spc0 s4]|]; [|discriminate]. eapply end_or_marker_origin; eauto.
+Qed.
+Theorem Requirement_marker_origin src r m : Requirement src = RqOk r -> q_marker r = Some m ->
+  exists m0, from_p_marker m0 /\ lit_class m0 = LOk /\ m = norm_l m0.
+Proof.
+  unfold Requirement. destruct (rq_parse src) as [p|] eqn:P; [|discriminate].
+  destruct (rq_specset (pr_spec p)); [|discriminate].
+  destruct (pr_marker p) as [m0|] eqn:M.
+  - destruct (lit_class m0) eqn:L; try discriminate. intros [= <-]. cbn [q_marker]. intros [= <-].
+    exists m0. repeat split; auto. eapply parse_marker_origin; eauto.
+  - intros [= <-]. discriminate.
+Qed.
+Print Assumptions Requirement_marker_origin.
